@@ -646,6 +646,10 @@ func selftestMain() int {
 				}
 			}
 		}
+		if os.Getenv("SELFTEST_PRINT") == name {
+			st, _ := os.Stat("/dev/shm")
+			fmt.Printf("selftest %s env: NumCPU=%d shm=%v TMPDIR=%q hashes=%s\n", name, runtime.NumCPU(), st != nil && st.IsDir(), os.Getenv("TMPDIR"), strings.Join(ref, " "))
+		}
 		if ok {
 			fmt.Printf("selftest %s: %d runs identical at GOMAXPROCS 1/4/16\n", name, len(ref))
 		} else {
